@@ -18,7 +18,8 @@ theorem C16_stmt_transparent (sc : Schema) (cfg : Cfg) (t : Table) (args : Args)
     ∃ n, apply sc t args s = .ok (t', n) := by
   cases s with
   | update sets w =>
-    simp only [stmtPhase1, apply] at h ⊢
+    replace h := (stmtPhase1_update_ok h).2
+    simp only [updatePhase1, apply] at h ⊢
     split at h
     · cases h
     · simp only [Except.ok.injEq, Prod.mk.injEq] at h
@@ -100,7 +101,11 @@ theorem C16_local_error (sc : Schema) (cfg : Cfg) (t : Table) (ltx : LocalTx) (e
           -- phase one cannot fail with an SQL error where the plain statement succeeds
           exfalso
           cases s with
-          | update sets w => simp only [stmtPhase1, apply] at hp; split at hp <;> simp at hp
+          | update sets w =>
+            simp only [stmtPhase1] at hp
+            split at hp
+            · cases hp
+            · simp only [updatePhase1, apply] at hp; split at hp <;> simp at hp
           | delete w => simp [stmtPhase1, apply] at hp
           | insert rows => simp only [stmtPhase1, he] at hp; simp at hp
         | pkChanged => right; rfl
